@@ -6762,6 +6762,38 @@ impl RelationalEngine {
         errors
     }
 
+    /// Reads the rows a transactional statement has just locked once more.
+    ///
+    /// `tx_update` and `tx_delete` find their rows by a scan and only then take the row locks, so
+    /// another transaction may have changed, committed or deleted one of those rows in between.
+    /// What the statement records for undo, removes from the indexes and overwrites must be the
+    /// row as it is now that the lock is held, not the copy from before. A row that is gone or no
+    /// longer satisfies the condition is left alone.
+    fn reread_locked_rows(
+        &self,
+        table: &str,
+        schema: &Schema,
+        condition: &Condition,
+        scanned: Vec<(SlabRowId, Row, Vec<SlabColumnValue>)>,
+    ) -> Result<Vec<(SlabRowId, Row, Vec<SlabColumnValue>)>> {
+        let max_depth = self.config.max_condition_depth;
+        let mut current = Vec::with_capacity(scanned.len());
+        for (slab_row_id, _, _) in scanned {
+            let Some(slab_row) = self
+                .slab()
+                .get(table, slab_row_id)
+                .map_err(|e| RelationalError::StorageError(e.to_string()))?
+            else {
+                continue;
+            };
+            let row = Self::slab_row_to_engine_row(schema, slab_row_id, slab_row.clone());
+            if condition.evaluate_with_depth(&row, 0, max_depth)? {
+                current.push((slab_row_id, row, slab_row));
+            }
+        }
+        Ok(current)
+    }
+
     /// Insert a row within a transaction.
     ///
     /// # Errors
@@ -6968,6 +7000,9 @@ impl RelationalEngine {
                 })?;
         }
 
+        // The locks are held from here on: work on the rows as they are now
+        let matching_rows = self.reread_locked_rows(table, &schema, &condition, matching_rows)?;
+
         // Convert updates to slab format
         let slab_updates: Vec<(String, SlabColumnValue)> = updates
             .iter()
@@ -7086,6 +7121,9 @@ impl RelationalEngine {
                     row_id: info.row_id,
                 })?;
         }
+
+        // The locks are held from here on: work on the rows as they are now
+        let to_delete = self.reread_locked_rows(table, &schema, &condition, to_delete)?;
 
         for (slab_row_id, row, old_slab_values) in &to_delete {
             // Capture index entries for undo
